@@ -453,6 +453,18 @@ func zzC04_aggregate(n int, pattern int) {
 		rem, err := RemoveBLSPublicKeys(aggPk, pks[1:])
 		verifAssert(err == nil, "RemoveBLSPublicKeys")
 		verifAssert(rem.Equals(pks[0]), "Remove(Aggregate(A+B), B) = Aggregate(A)")
+		// results of a removal (and threshold / DKG key shares) are keys like any other: aggregating them again
+		// follows the same homomorphism, whatever internal representation the removal left them in
+		var xd scalar
+		nondetFrStar(&xd)
+		skd := newPrKeyBLSBLS12381(&xd)
+		reagg, err := AggregateBLSPublicKeys([]PublicKey{rem, skd.PublicKey()})
+		verifAssert(err == nil, "AggregateBLSPublicKeys on the result of a removal")
+		direct, _ := AggregateBLSPublicKeys([]PublicKey{pks[0], skd.PublicKey()})
+		verifAssert(reagg.Equals(direct), "Aggregate(Remove(Aggregate(A+B), B), d) = Aggregate(A, d)")
+		assertEqBytes(reagg.Encode(), direct.Encode(), "with the same encoding")
+		back, _ := RemoveBLSPublicKeys(reagg, []PublicKey{skd.PublicKey()})
+		verifAssert(back.Equals(pks[0]), "and removing d again gives A")
 		all, _ := RemoveBLSPublicKeys(aggPk, pks)
 		verifAssert(all.Equals(IdentityBLSPublicKey()), "removing all keys gives the identity key")
 		verifAssert(all.(*pubKeyBLSBLS12381).isIdentity, "identity flag is recomputed")
